@@ -3,6 +3,7 @@ import c20
 import c19
 import life
 import comm
+import spawn
 
 CHECKS = {
     "C20": c20.check,
@@ -11,6 +12,13 @@ CHECKS = {
     "C02": comm.check,
     "C03": comm.check,
     "C04": comm.check,
+    "C05": spawn.check,
+    "C06": spawn.check,
+    "C07": spawn.check,
+    "C08": spawn.check,
+    "C15": spawn.check,
+    "C17": spawn.check,
+    "C18": spawn.check,
     "C09": life.check,
     "C10": life.check,
     "C11": life.check,
